@@ -483,7 +483,7 @@ def run(ck):
         "evaluations": len(reqs), "distinct_nontrivial": distinct,
         "rule": "requests = fixed witnesses/boundary cases + seeded random columns (dyadics, signed zeros, huge/tiny magnitudes, "
                 "NaN, +-inf; result = reference perturbed absolutely/relatively/not at all), random tolerances (0, powers of 2 and "
-                "10, negative, NaN) and time grids (common, nested, disjoint, duplicated abscissas, a few unsorted); distinct = "
+                "10, negative) and time grids (common, nested, disjoint, duplicated abscissas, a few unsorted); distinct = "
                 "distinct request lines; every request executes the per-line error tests of the real class",
         "exhaustive": False, "disagreements": disagreements, "property_failures": property_failures,
         "requests_by_kind": kinds, "histogram_kind_class_verdict": dict(sorted(hist.items())),
